@@ -217,7 +217,7 @@ BoundViol(opn, dir, io, bound) ==
                      /\ bound.headers[j].node.ns = UriStr(io.headers[i].el.ns)}}
 TrSoapBinding ==
   /\ IsEvent("soap_binding")
-  /\ IF P = "C05reader"
+  /\ IF P = "C05reader" /\ (\E k \in 1..Len(cur.case.bindings) : ev.name \in {NameXml(cur.case.bindings[k]), NameXml(cur.case.bindings[k]) \o "12"})
      THEN /\ Report(UNION {IF ~HasSoapOp(ev.ops, cur.case.ops[i].n) THEN {V("reader_operation_bound", cur.case.ops[i].n, "bound", "missing")}
                            ELSE BoundViol(cur.case.ops[i].n, "input", cur.case.ops[i].input, SoapOp(ev.ops, cur.case.ops[i].n).input)
                                 \cup (IF HasOutput(cur.case.ops[i]) /\ "body" \in DOMAIN SoapOp(ev.ops, cur.case.ops[i].n).output
